@@ -167,7 +167,12 @@ func (a *vfActor) onAskMsg(ctx vivid.ActorContext, m *vfAskMsg, fw *vfFutWorld) 
 	}
 }
 
+// vfFutRespawn: askers that are re-created under the same name right after their kill (set by the generator,
+// read by the runner; keyed by asker index, valid for the case being run)
+var vfFutRespawn map[int]bool
+
 func vfGenFutures(rng *verifrt.Rand) (nAskers, nResp int, asks []vfAskSpec, kills map[int]time.Duration) {
+	vfFutRespawn = map[int]bool{}
 	nAskers = 1 + rng.Intn(5)
 	nResp = 1 + rng.Intn(3)
 	n := 1 + rng.Intn(50)
@@ -182,6 +187,9 @@ func vfGenFutures(rng *verifrt.Rand) (nAskers, nResp int, asks []vfAskSpec, kill
 	for k := 0; k < nAskers; k++ {
 		if rng.Chance(25) {
 			kills[k] = []time.Duration{0, time.Millisecond, 10 * time.Millisecond, 100 * time.Millisecond, 500 * time.Millisecond}[rng.Intn(5)]
+			if rng.Chance(60) {
+				vfFutRespawn[k] = true // a new actor with the same name takes over; late replies to the old one are in flight
+			}
 		}
 	}
 	pipes := 0
@@ -205,7 +213,7 @@ func vfGenFutures(rng *verifrt.Rand) (nAskers, nResp int, asks []vfAskSpec, kill
 			a.PipeAt = a.At + []time.Duration{0, 0, time.Millisecond, 10 * time.Millisecond, 100 * time.Millisecond, 1500 * time.Millisecond}[rng.Intn(6)]
 			a.PipeN = 1 + rng.Intn(2)
 		}
-		if kt, ok := kills[a.Asker]; ok && a.At > kt {
+		if kt, ok := kills[a.Asker]; ok && a.At > kt && !vfFutRespawn[a.Asker] {
 			a.At = kt // asks issued to a dead asker are just dead letters: keep them before the kill
 		}
 		asks = append(asks, a)
@@ -329,6 +337,12 @@ func vfRunFutures(nAskers, nResp int, asks []vfAskSpec, kills map[int]time.Durat
 		}
 		wg.Wait()
 		w.wait()
+		for x := i; x < j; x++ {
+			if acts[x].kind == "kill" && vfFutRespawn[acts[x].k] {
+				w.spawnTop(&vfSpec{Name: fmt.Sprintf("k%d", acts[x].k)})
+			}
+		}
+		w.wait()
 		i = j
 	}
 	// let every timer fire (default timeout 1 s, longest reply delay 2 s)
@@ -345,8 +359,8 @@ func vfRunFutures(nAskers, nResp int, asks []vfAskSpec, kills map[int]time.Durat
 	fw.fmu.Unlock()
 	for _, r := range open {
 		canComplete := !(r.spec.TimeoutSet && r.spec.Timeout == 0) || r.spec.Script == "now" || r.spec.Script == "twice" || r.spec.Script == "after"
-		if _, killed := kills[r.spec.Asker]; killed {
-			canComplete = true
+		if kt, killed := kills[r.spec.Asker]; killed && kt >= r.askedAt {
+			canComplete = true // asked by the incarnation that was killed afterwards
 		}
 		if canComplete || r.spec.CloseAt >= 0 {
 			add("c04-future-never-completed", r.spec.Script, "ask %s: %d of %d waiters are still blocked in Result/Wait 3 virtual seconds after the last candidate completion instant", r.spec, r.spec.Waiters-len(r.results), r.spec.Waiters)
